@@ -6,19 +6,21 @@
    [decode all n] is what the NAME n says, given the final-state ids [all].
 
    Clauses of the property and where they are:
-   (1) masses: C07_mass_named_correctly (+ C07_mass_is_minkowski_norm for the InvariantMass tree, T1);
+   (1) masses: C07_mass_named_correctly; C07_mass_is_minkowski_norm, C07_mass_of_sum_is_minkowski_norm
+       (T1: the InvariantMass tree regenerated from /repo);
    (2) angles = documented momentum in documented frames: C07_angles_match_spec (trees without a
        node whose two children both decay), C07_angles_match_spec_refuted (it FAILS otherwise on the
        current code), C07_angles_match_spec_repaired (model of the proposed patch: all trees);
-       what Phi/Theta/the frame matrices compute on numbers: C07_analytic (T1) + numeric harness;
+       C07_phi_is_azimuth, C07_theta_is_polar_angle (T1: Phi, Theta trees); the frame matrices are C08's
+       subject and are compared numerically with bridge/frames.py here;
    (3) 3-body polar angle = Dalitz closed form: numeric harness only (not proved);
    (4) a name never denotes two quantities: C07_name_says_value, C07_name_determines_value,
        C07_create_expressions_order_independent, C07_fold_update_perm,
        C07_permuted_topologies_consistent; refuted for double-decay nodes:
        C07_name_determines_value_refuted, C07_create_expressions_order_refuted. *)
-From AV Require Import Kin.
-From AVchk Require Import C07_lemmas.
-From Coq Require Import ZArith List Bool Permutation.
+From AV Require Import DenR Kin.
+From AVchk Require Import Gen_C07 C07_lemmas C07_analytic.
+From Coq Require Import ZArith List Bool Permutation Reals Lra.
 Import ListNotations.
 Open Scope Z_scope.
 
@@ -129,6 +131,37 @@ Proof.
   intros t fs ts' H1 H2. apply (permuted_consistent_lemma false t fs ts' H1). now right.
 Qed.
 
+(* ---- T1: what the atoms of an abstract term compute, on the trees regenerated from /repo
+   (per-event meaning of the generated NumPy code, cse on and off) ---- *)
+Theorem C07_mass_is_minkowski_norm : forall t, t = mass_cse \/ t = mass_nocse -> forall E x y z : R,
+  (0 <= E^2 - x^2 - y^2 - z^2)%R ->
+  wdR (envP E x y z) t /\ denR (envP E x y z) t = sqrt (E^2 - x^2 - y^2 - z^2)%R.
+Proof. exact mass_meaning. Qed.
+
+Theorem C07_mass_of_sum_is_minkowski_norm : forall t, t = mass_sum_cse \/ t = mass_sum_nocse ->
+  forall E x y z Eq xq yq zq : R,
+  (0 <= (E + Eq)^2 - (x + xq)^2 - (y + yq)^2 - (z + zq)^2)%R ->
+  wdR (envPQ E x y z Eq xq yq zq) t /\
+  denR (envPQ E x y z Eq xq yq zq) t = sqrt ((E + Eq)^2 - (x + xq)^2 - (y + yq)^2 - (z + zq)^2)%R.
+Proof. exact mass_sum_meaning. Qed.
+
+Theorem C07_phi_is_azimuth : forall t, t = phi_cse \/ t = phi_nocse -> forall E x y z : R,
+  (x <> 0 \/ y <> 0)%R ->
+  wdR (envP E x y z) t /\ denR (envP E x y z) t = atan2 y x.
+Proof. exact phi_meaning. Qed.
+
+Theorem C07_theta_is_polar_angle : forall t, t = theta_cse \/ t = theta_nocse -> forall E x y z : R,
+  (0 < x^2 + y^2 + z^2)%R ->
+  wdR (envP E x y z) t /\
+  denR (envP E x y z) t = acos (z / sqrt (x^2 + y^2 + z^2))%R /\
+  (cos (denR (envP E x y z) t) * sqrt (x^2 + y^2 + z^2) = z)%R /\
+  (0 <= denR (envP E x y z) t <= PI)%R.
+Proof. exact theta_meaning. Qed.
+
+Example C07_ex_analytic_hyp :
+  (0 <= 5^2 - 0^2 - 3^2 - 4^2)%R /\ (0 < 0^2 + 3^2 + 4^2)%R /\ ((0 <> 0 \/ 3 <> 0)%R).
+Proof. split; [|split]; [lra | lra | right; lra]. Qed.
+
 (* ---- non-vacuity: the hypotheses are satisfiable and the statements say something ---- *)
 Definition three_body : tree := Node (-1) (Leaf 0) (Node 3 (Leaf 1) (Leaf 2)).
 Definition five_body : tree :=
@@ -173,3 +206,7 @@ Print Assumptions C07_create_expressions_order_independent.
 Print Assumptions C07_create_expressions_order_refuted.
 Print Assumptions C07_create_expressions_order_independent_repaired.
 Print Assumptions C07_permuted_topologies_consistent.
+Print Assumptions C07_mass_is_minkowski_norm.
+Print Assumptions C07_mass_of_sum_is_minkowski_norm.
+Print Assumptions C07_phi_is_azimuth.
+Print Assumptions C07_theta_is_polar_angle.
